@@ -89,6 +89,9 @@ def scn_timeouts(ctx):
         ev.add("submitted", i=i)
         rg = sp["regime"]
         T, c = sp["T"], sp["c"]
+        if rg == 5:
+            dels[i].refuse_cancels = 10  # the delegate refuses every cancel attempt and never completes
+            return
         if rg in (1, 4):
             ctx.assume(s_and(c >= t_ret[i], c + SEP * eps <= t_start[i] + T))
         elif rg == 2:
@@ -131,7 +134,12 @@ def scn_timeouts(ctx):
             ctx.check("never-early", tc >= t_start[i] + T, "cancel of %d at %r, deadline >= %r" % (i, tc, t_start[i] + T))
         late_deadline = t_ret[i] + T
         rg = sp["regime"]
-        if rg in (0, 2):
+        if rg == 5:
+            ctx.reach("cancel-refused")
+            ctx.check("exactly-one-cancel", len(calls) == 1, "future %d: the delegate refused the cancel; %d attempts were made" % (i, len(calls)))
+            if calls:
+                ctx.check("cancel-at-deadline", calls[0][0] <= late_deadline + K * eps, "cancel at %r, deadline %r" % (calls[0][0], late_deadline))
+        elif rg in (0, 2):
             ctx.reach("not-done-at-deadline")
             ok = ctx.check("exactly-one-cancel", len(calls) == 1,
                            "future %d not done at its deadline, cancels=%d" % (i, len(calls)))
@@ -167,7 +175,7 @@ BUDGET = {"quick": 150.0, "thorough": 600.0}
 def plan(tier, seed):
     T = "timeouts"
     if tier == "quick":
-        return [dict(scenario=T, params=dict(n=1, form="executor"), bounds=dict(P=1)),
+        return [dict(scenario=T, params=dict(n=1, form="executor", regimes=[0, 1, 2, 3, 4, 5]), bounds=dict(P=1)),
                 dict(scenario=T, params=dict(n=1, form="f_timeout"), bounds=dict(P=0)),
                 dict(scenario=T, params=dict(n=2, form="executor", submitters=1, regimes=[0, 1, 3], percall_choice=False), bounds=dict(P=0))]
     return [dict(scenario=T, params=dict(n=1, form="executor"), bounds=dict(P=2)),
